@@ -33,6 +33,7 @@ class Conn:
         self.q = []
         self.closed = False
         self.eof_seen = False
+        self.truncated = False      # the writer was killed part-way through a frame
 
     def recv(self):
         vos.check_sticky()
@@ -41,6 +42,9 @@ class Conn:
         if self.q:
             return self.q.pop(0)
         if not self.w.alive:
+            if self.truncated:
+                self.truncated = False
+                raise OSError("got end of file during message")
             self.eof_seen = True
             raise EOFError()
         vos.hang("conn.recv", "pool reads a pipe that was not ready")
@@ -119,6 +123,8 @@ class FakePW:
         self.inbox = []
         if marker:
             self.conn.q.append((self.counter, False, None, self.id))
+        elif self.env.allow_truncated and self.env.sched.pick(2) == 1:
+            self.conn.truncated = True
         self.env.events.append(("dead", self.idx, marker))
 
 
@@ -130,6 +136,7 @@ class Env:
         self.poison = poison
         self.allow_death_at_enqueue = allow_death_at_enqueue
         self.double_ready = double_ready
+        self.allow_truncated = True
         self.lost = []          # inputs handed to a worker that died before answering them
         self.refused = []       # inputs that were being handed to a dead worker
         self.events = []
